@@ -203,6 +203,8 @@ func threadType(t string) string {
 		return "(List UInt8)"
 	case strings.HasPrefix(t, "cb_"):
 		return "(List (Int64 × Int64))"
+	case strings.HasPrefix(t, "sk_"):
+		return "(List (List UInt8))"
 	case t == "w":
 		return "Go.World"
 	}
@@ -328,6 +330,9 @@ func (c *leafCtx) effectsOfCalls(n ast.Node, local map[string]bool, out map[stri
 				mark(ce.Args[0])
 			}
 		}
+		if isPutUint16(ce) {
+			mark(ce.Args[0])
+		}
 		if id, ok := ce.Fun.(*ast.Ident); ok {
 			switch id.Name {
 			case "delete", "copy":
@@ -337,6 +342,13 @@ func (c *leafCtx) effectsOfCalls(n ast.Node, local map[string]bool, out map[stri
 			}
 			if _, isCb := c.callbacks[id.Name]; isCb && !local[id.Name] {
 				out["cb_"+id.Name] = true
+			}
+		}
+		if f, ok := ce.Fun.(*ast.SelectorExpr); ok {
+			if id, ok := f.X.(*ast.Ident); ok {
+				if _, isSink := c.sinks[id.Name]; isSink && !local[id.Name] {
+					out["sk_"+id.Name] = true
+				}
 			}
 		}
 		if li, recv := c.calleeInfo(ce); li != nil {
@@ -626,6 +638,9 @@ func (c *leafCtx) stmt7(s ast.Stmt, next func(string) string, ind string) string
 		return "0"
 	}
 	nl := "\n" + ind
+	if r, ok := c.stmt9(s, next, ind); ok {
+		return r
+	}
 	if r, ok := c.stmt8(s, next, ind); ok {
 		return r
 	}
@@ -1693,6 +1708,9 @@ func (c *leafCtx) constIndex(e ast.Expr) (int, bool) {
 
 // expr7 translates the expression forms of the seventh generation; ok = false: not one of them
 func (c *leafCtx) expr7(e ast.Expr, want string) (string, string, bool) {
+	if s, t, ok := c.expr9(e, want); ok {
+		return s, t, true
+	}
 	if s, t, ok := c.expr8(e, want); ok {
 		return s, t, true
 	}
@@ -1879,6 +1897,9 @@ func (c *leafCtx) expr7(e ast.Expr, want string) (string, string, bool) {
 						c.binds = append(c.binds, c.bindLine("(Go.Slice.append? "+xs+" "+v+")", r, "stuck"))
 						return r, xt, true
 					}
+				}
+				if r, t, ok := c.append9(x); ok {
+					return r, t, true
 				}
 				c.fail("append to a slice modelled without a capacity")
 				return "0", want, true
@@ -2220,6 +2241,7 @@ func findRange(body *ast.BlockStmt, rs rangeSpec) ([]ast.Stmt, string) {
 
 func (c *leafCtx) translateRange7(ds *dirState, l leaf7Spec, fd *ast.FuncDecl, fset *token.FileSet, mode int, rs rangeSpec) (string, *leafInfo) {
 	c.gen7, c.mode = true, mode
+	markSelfAppends(fd)
 	c.ren, c.declDepth, c.sites, c.nsite = map[string]string{}, map[string]int{}, map[token.Pos]string{}, map[string]int{}
 	c.callbacks = map[string][]string{}
 	c.aliasOf = map[string]string{}
@@ -2271,6 +2293,7 @@ func (c *leafCtx) translate7(ds *dirState, l leaf7Spec, fd *ast.FuncDecl, fset *
 		return c.translateRange7(ds, l, fd, fset, mode, rs)
 	}
 	c.gen7, c.mode = true, mode
+	markSelfAppends(fd)
 	c.ren, c.declDepth, c.sites, c.nsite = map[string]string{}, map[string]int{}, map[token.Pos]string{}, map[string]int{}
 	c.callbacks = map[string][]string{}
 	c.logVars = map[string]bool{}
@@ -2300,6 +2323,14 @@ func (c *leafCtx) translate7(ds *dirState, l leaf7Spec, fd *ast.FuncDecl, fset *
 		}
 		if isLoggerType(t) { // loggers are dropped: logging has no effect on the model (leaf8.go)
 			c.logVars[n] = true
+			return
+		}
+		if st := sinkType9(t); st != "" { // a sink: its method calls are recorded (leaf9.go)
+			if c.sinks == nil {
+				c.sinks = map[string]string{}
+			}
+			c.sinks[n] = st
+			c.logVars[n] = true // not counted as a parameter
 			return
 		}
 		if ot := opaqueType(t); ot != "" { // an opaque foreign object: its methods become function-typed externals (leaf8.go)
@@ -2375,6 +2406,15 @@ func (c *leafCtx) translate7(ds *dirState, l leaf7Spec, fd *ast.FuncDecl, fset *
 	for _, n := range cbs {
 		c.threads = append(c.threads, "cb_"+n)
 		prologue += "let cb_" + n + " : " + threadType("cb_"+n) + " := []\n  "
+	}
+	var sks []string
+	for n := range c.sinks {
+		sks = append(sks, n)
+	}
+	sort.Strings(sks)
+	for _, n := range sks {
+		c.threads = append(c.threads, "sk_"+n)
+		prologue += "let sk_" + n + " : " + threadType("sk_"+n) + " := []\n  "
 	}
 	ret := ""
 	if fd.Type.Results != nil {
@@ -2547,6 +2587,17 @@ var leaves7 = []leaf7Spec{
 	{"net/nts", "Authenticator.unpack", "nts_Authenticator_unpack", "LeafNts"},
 	{"net/nts", "UniqueIdentifier.unpack", "nts_UniqueIdentifier_unpack", "LeafNts"},
 	{"net/nts", "Cookie.unpack", "nts_Cookie_unpack", "LeafNts"},
+	// ninth generation (leaf9.go): the extension-field walk of DecodePacket
+	{"net/nts", "CookiePlaceholder.unpack", "nts_CookiePlaceholder_unpack", "LeafNts"},
+	{"net/nts", "extHdr.unpack", "nts_extHdr_unpack", "LeafNts"},
+	{"net/nts", "DecodePacket", "nts_DecodePacket", "LeafNts"},
+	{"net/nts", "Packet.authenticate", "nts_Packet_authenticate", "LeafNts"},
+	{"net/nts", "ProcessResponse", "nts_ProcessResponse", "LeafNts"},
+	{"net/nts", "extHdr.pack", "nts_extHdr_pack", "LeafNts"},
+	{"net/nts", "Cookie.pack", "nts_Cookie_pack", "LeafNts"},
+	{"net/nts", "CookiePlaceholder.pack", "nts_CookiePlaceholder_pack", "LeafNts"},
+	{"net/nts", "UniqueIdentifier.pack", "nts_UniqueIdentifier_pack", "LeafNts"},
+	{"net/nts", "Authenticator.pack", "nts_Authenticator_pack", "LeafNts"},
 	// eighth generation (leaf8.go): the clock object — recorded system calls with their argument
 	// values, pointers to immutable structs with identity, the expiry goroutine
 	{"driver/clocks", "setOffset", "clocks_setOffset", "LeafClocks"},
@@ -2723,7 +2774,7 @@ func emitLeaves7(repo string, parsed map[string][]*ast.File, fset *token.FileSet
 			sb.WriteString("import ScionTime.Gen." + d + "\n")
 		}
 		sb.WriteString("import ScionTime.Model.GoPrelude2\nset_option linter.unusedVariables false\nnamespace ScionTime.Gen.Leaf\nopen ScionTime\n\n")
-		sb.WriteString(body.String())
+		sb.WriteString(renameStructs9(file, body.String()))
 		sb.WriteString("end ScionTime.Gen.Leaf\n")
 		writeIfChanged(outDir+"/"+file+".lean", sb.String())
 	}
